@@ -6,9 +6,10 @@ import Gca.Codec.Stats
 The record-level disk model of C04/C05 versus the bytes in the files: the
 server writes `Auth.encode`, `Report.encode`, `Week.encode` records one after
 another; at start-up it splits the authorization file into 148-byte chunks
-(`buffer.Next(148)`, a short last chunk is an error), refuses a report file whose
-length is not a multiple of 80 and decodes 80-byte chunks, and decodes the
-statistics file with the stream decoder. These theorems say that parsing the
+(`buffer.Next(148)`), decodes the report file in 80-byte chunks and decodes the
+statistics file with the stream decoder. The parsers below are the strict ones
+(they refuse data that does not end on a record boundary); since the repair of
+F25 the loaders first drop a partial trailing record, which is `Props/DiskTorn.lean`. These theorems say that parsing the
 bytes of a well-formed record-level disk gives back exactly that disk, so the
 theorems about `load` on records are theorems about `load` on the real files.
 -/
